@@ -474,7 +474,8 @@ impl<'r> Gen<'r> {
                 0..=29 => Frag::Check(Box::new(Frag::PkK(self.key()))),
                 30..=39 => Frag::Check(Box::new(Frag::PkH(self.key()))),
                 40..=51 => {
-                    let n = self.rng.range(1, 3);
+                    // mostly small; sometimes wide (number pushes above 16 need two bytes)
+                    let n = if self.rng.chance(1, 8) { self.rng.range(4, 20) } else { self.rng.range(1, 3) };
                     let k = self.rng.range(1, n);
                     let ks = self.keys(n);
                     let sorted = self.rng.chance(1, 4);
